@@ -181,16 +181,52 @@ class X86Model(object):
         self.rows = []
         ev = Evaluator(self.env)
         nonlit = []
-        for n in ast.walk(init):
-            if isinstance(n, ast.Call) and (u(n.func) == 'self.addop' or (alias and u(n.func) == alias)):
-                if len(n.args) != 7 or n.keywords:
-                    raise AnalysisError('addop call with unexpected arity at line %d' % n.lineno)
-                try:
-                    vals = [ev.ev(a) for a in n.args]
-                except NotConst as e:
-                    nonlit.append((n.lineno, str(e)))
-                    continue
-                self.rows.append((n.lineno, n, vals))
+        # the signature of addop: positional parameters, defaults (evaluated once, like python does: a default dictionary is one object for every call that
+        # omits the argument) and the `P.update(Q)` statements of its body over two parameters (the only way it changes what it was given)
+        addop = self.arch.method('x86allmncs', 'addop')
+        params = [a.arg for a in addop.args.args][1:]
+        if params[:4] != ['name', 'opc', 'afs', 'rm'] or len(params) != 7 or addop.args.vararg or addop.args.kwarg or addop.args.kwonlyargs:
+            raise AnalysisError('x86allmncs.addop has an unexpected signature: %s' % params)
+        defaults = {}
+        for pn, dn in zip(params[len(params) - len(addop.args.defaults):], addop.args.defaults):
+            try:
+                defaults[pn] = ev.ev(dn)
+            except NotConst as e:
+                raise AnalysisError('default of addop parameter %s not evaluable: %s' % (pn, e))
+        updates = [(st.value.func.value.id, st.value.args[0].id) for st in addop.body
+                   if isinstance(st, ast.Expr) and isinstance(st.value, ast.Call) and isinstance(st.value.func, ast.Attribute) and st.value.func.attr == 'update'
+                   and isinstance(st.value.func.value, ast.Name) and st.value.func.value.id in params and len(st.value.args) == 1 and isinstance(st.value.args[0], ast.Name)
+                   and st.value.args[0].id in params]
+        calls = [n for n in ast.walk(init) if isinstance(n, ast.Call) and (u(n.func) == 'self.addop' or (alias and u(n.func) == alias))]
+        calls.sort(key=lambda n: (n.lineno, n.col_offset))      # __init__ is straight-line code: source order is execution order
+        for n in calls:
+            if len(n.args) > 7 or any(k.arg is None or k.arg not in params for k in n.keywords) or any(isinstance(a, ast.Starred) for a in n.args):
+                raise AnalysisError('addop call with unexpected arity at line %d' % n.lineno)
+            bound, fresh = {}, set()
+            try:
+                for pn, a in zip(params, n.args):
+                    bound[pn] = ev.ev(a)
+                    fresh.add(pn)
+                for k in n.keywords:
+                    if k.arg in bound:
+                        raise AnalysisError('addop call gives %s twice at line %d' % (k.arg, n.lineno))
+                    bound[k.arg] = ev.ev(k.value)
+                    fresh.add(k.arg)
+            except NotConst as e:
+                nonlit.append((n.lineno, str(e)))
+                continue
+            for pn in params:
+                if pn not in bound:
+                    if pn not in defaults:
+                        raise AnalysisError('addop call with unexpected arity at line %d' % n.lineno)
+                    bound[pn] = defaults[pn]          # the shared object
+            # what addop does to its arguments: a dictionary built for this call is handled by the expansion below; a default dictionary keeps
+            # what it receives for every later call that omits the argument
+            for dst_, src_ in updates:
+                if dst_ not in fresh and isinstance(bound[dst_], dict) and isinstance(bound[src_], dict):
+                    bound[dst_].update(bound[src_])
+            vals = [dict(bound[pn]) if isinstance(bound[pn], dict) and pn not in fresh else bound[pn] for pn in params]
+            self.rows.append((n.lineno, n, vals))
         if nonlit:
             raise AnalysisError('addop rows with non-constant arguments: %s' % nonlit[:3])
         self.rows.sort(key=lambda r: (r[0], r[1].col_offset))
